@@ -444,7 +444,7 @@ theorem ClsWin.closesOpens {G : List Tok} {lo hi : Nat} (h : ClsWin G lo hi) (hl
 /-- state of the left loops with `n` levels to go (the levels above `target + n` are done): either nothing is
     split yet — the outer position `gs - moved` is the boundary in front of the path's child at level `target + n` —
     or the node at level `target + n + 1` is cut at `gs - moved` (`CutL`, as far as the guard's tests passed) -/
-def LInv (S : Schema) (doc : Node) (f : RPos) (gs depth target n : Nat) (frag : List Node) (opened moved : Nat)
+def LiftLInv (S : Schema) (doc : Node) (f : RPos) (gs depth target n : Nat) (frag : List Node) (opened moved : Nat)
     (sp : Bool) (acc : Option Node) (ok : Bool) : Prop :=
   moved ≤ gs ∧ OpsWin (ftoks doc.kids) (gs - moved) gs ∧
   ((sp = false ∧ acc = none ∧ frag = [] ∧ opened = 0 ∧
@@ -457,12 +457,12 @@ def LInv (S : Schema) (doc : Node) (f : RPos) (gs depth target n : Nat) (frag : 
 theorem left_loop (S : Schema) {doc : Node} {a : Nat} {f : RPos} (hf : doc.resolve a = some f)
     (gs depth target : Nat) (hdf : depth ≤ f.depth) :
     ∀ (n : Nat) (frag : List Node) (opened moved : Nat) (sp : Bool) (acc : Option Node) (ok : Bool),
-      target + n ≤ depth → LInv S doc f gs depth target n frag opened moved sp acc ok →
+      target + n ≤ depth → LiftLInv S doc f gs depth target n frag opened moved sp acc ok →
       ∃ frag' opened' moved' acc' ok',
         liftSide f.node (fun d => decide (0 < f.index d)) target n frag opened moved sp = (frag', opened', moved') ∧
         liftPieces S f.node (fun d => decide (0 < f.index d)) (fun d => (f.node d).kids.take (f.index d))
           (fun k c => k ++ c) target n acc ok = (acc', ok') ∧
-        LInv S doc f gs depth target 0 frag' opened' moved' acc'.isSome acc' ok'
+        LiftLInv S doc f gs depth target 0 frag' opened' moved' acc'.isSome acc' ok'
   | 0, frag, opened, moved, sp, acc, ok, _, h => by
     refine ⟨frag, opened, moved, acc, ok, rfl, rfl, ?_⟩
     obtain ⟨h1, h2, h3⟩ := h
@@ -849,9 +849,9 @@ theorem lift_payload (S : Schema) {tyN : TypeId} {aN : Attrs} {mN : Marks} {kN m
 
 /-! ### from the final loop states to the two sides -/
 
-theorem LInv.side {S : Schema} {doc : Node} {f : RPos} {gs depth target : Nat} {frag : List Node}
+theorem LiftLInv.side {S : Schema} {doc : Node} {f : RPos} {gs depth target : Nat} {frag : List Node}
     {opened moved : Nat} {acc : Option Node} {ok : Bool}
-    (h : LInv S doc f gs depth target 0 frag opened moved acc.isSome acc ok) (hok : ok = true)
+    (h : LiftLInv S doc f gs depth target 0 frag opened moved acc.isSome acc ok) (hok : ok = true)
     {tyN : TypeId} {aN : Attrs} {mN : Marks} {kN : List Node}
     (eN : f.node (target + 1) = .elem tyN aN mN kN) (preT : List Node)
     (hpre : preT = (f.node target).kids.take (f.index target))
@@ -934,7 +934,7 @@ theorem lift_applies (S : Schema) (hts : TextStableP S) (ty0 : TypeId) (a0 : Att
   have same := same_ancestors Rf Rt depth b hdf hdt (by omega) hend pt.1 pt.2
   have hnD := path_fnorm Rf hn depth hdf
   -- the left loops
-  have hLinit : LInv S (Node.elem ty0 a0 m0 K) f gs depth target (depth - target) [] 0 0 false none true :=
+  have hLinit : LiftLInv S (Node.elem ty0 a0 m0 K) f gs depth target (depth - target) [] 0 0 false none true :=
     ⟨Nat.zero_le _, fun i h1 h2 => by omega,
       .inl ⟨rfl, rfl, rfl, rfl, by rw [show target + (depth - target) = depth by omega, ← hpre]; omega⟩⟩
   obtain ⟨before, oS, mL, accL, okL, hsideL, hpiecesL, hfinL⟩ :=
